@@ -6,6 +6,9 @@ present), a concurrent stress leg, and the same under the race detector in the t
 Round 2: Close on a socket that does not take writes (closeblk), Close / expired deadline while a
 Read or Write runs the implicit Handshake (iclose / idl), the state accessors at every log point of
 the handshake (access), and the key-possession judge of the fatal-alert placements (DTLS 1.3).
+Round g (wfault leg, zz_verif_c16_wfault_test.go): the transport refuses writes (ECONNREFUSED, once / n times /
+persistently) exactly at the endpoint's own close_notify reply, its own close_notify in Close, the ACK of
+the peer's KeyUpdate followed by the peer's Close; Read pending or issued afterwards (monitors_wf).
 Monitors = the property's statements, evaluated on the implementation trace."""
 import os
 import re
@@ -376,13 +379,13 @@ def wf_model_case(o):
     own = sc["fault"] == "own"
     if not own and not (o["delivered"] and o["recv_cn"]):
         return None
-    evn = {"reply": 12, "own": 7, "ack": 14 if sc["mode"] < 0 else 8}[sc["fault"]]
+    evn = {"reply": 12, "own": 7, "ack": 14 if (sc["mode"] < 0 or o["failed"] >= 2) else 8}[sc["fault"]]   # 14: the reply was refused as well
     term = "((%s, %s, false, false, true, %s), (%s, false), (%s, 1, %s, 0), (%s, %s), (%s, %s, %s))" % (
         cN(evn), cbool(o["v13"]), cN(1 if own else 0), cbool(sc["rd_pend"]),
         clist([cN(code(o["close_x"]))] if own else []), cN(code(o["rd_x"]) if sc["rd_pend"] else 0),
         cN(o["cn_x"]), cbool(o["closed_x"]),
         cN(code(o.get("close2_x") or "")), cN(code(o.get("wr_aft") or "")), cN(code(o.get("rd_aft1") or "")))
-    return term, (evn, o["v13"], sc["rd_pend"], sc["mode"] < 0)
+    return term, (evn, o["v13"], sc["rd_pend"], sc["mode"])
 
 
 # ----------------------------------------------------------------- model cases
@@ -773,7 +776,14 @@ def run(chk):
              "them), X's state machine fails on the ACK; then the peer closes / sends a fatal alert / X closes (also "
              "while the state machine is still inside the blocked write): the alert must be read, Read = EOF, Close "
              "returns, no goroutine left. Observables: result class of every call, decrypted close_notify/fatal records per side, "
-             "goroutines after teardown, synctest deadlock/leak panics. stress: concurrent Read/Write/Close/deadline "
+             "goroutines after teardown, synctest deadlock/leak panics. wfault: established session of every variant, both sides, "
+             "0-2 (thorough 0-7) application datagrams, then the transport of X refuses the next 1 / all (thorough 1, 2, 3, all) "
+             "writes with ECONNREFUSED exactly at X's close_notify reply to the peer's Close, at X's own close_notify in Close, "
+             "at the ACK of the peer's KeyUpdate followed by the peer's Close (DTLS 1.3); with and without a pending Read; then "
+             "Read, Read, Write, Handshake, Close, Read, Write: after the peer's close_notify was received every pending and "
+             "later Read must return EOF/closed (never a bare transport error followed by a Read that blocks), Write a closed "
+             "error, Close nil, no goroutine left; the observations are also compared with the model (events 12/7/14/8). "
+             "stress: concurrent Read/Write/Close/deadline "
              "setters/accessors on both endpoints. Non-trivial = an event is injected; distinct by scenario tuple "
              "(model legs: by model scenario class). thorough adds -race runs (e2e x10, stress 2000 iterations).",
         assumptions=[
